@@ -1,0 +1,97 @@
+//go:build verif
+
+package linear
+
+import (
+	"github.com/biogo/biogo/alphabet"
+	"github.com/biogo/biogo/seq"
+)
+
+// Contracts for the deductive verifier in /verif (govc). This file is only
+// compiled with -tags verif; it adds no behaviour to the package.
+
+// complementing(s): the sequence carries a complementing alphabet whose table it does not alias,
+// and a strand that is one of the three declared constants.
+//@ spec complementing(alpha alphabet.Alphabet, letters int, strand int) bool = alpha != nil && implements(alpha, alphabet.Complementor) && letters != tabArr(alpha) && -1 <= strand && strand <= 1
+
+//@ func (*Seq).RevComp
+//@   property C05
+//@   requires s != nil && complementing(s.Alpha, arr(s.Seq), s.Strand)
+//@   ensures [shape]   len(s.Seq) == old(len(s.Seq)) && arr(s.Seq) == old(arr(s.Seq)) && off(s.Seq) == old(off(s.Seq))
+//@   ensures [letters] forall k int :: 0 <= k && k < len(s.Seq) ==> s.Seq[k] == ctab(s.Alpha, old(s.Seq[len(s.Seq)-1-k]))
+//@   ensures [strand]  s.Strand == -old(s.Strand) && s.Offset == old(s.Offset) && s.Alpha == old(s.Alpha)
+//@   assigns s.Seq[*], s.Strand
+//@   loop 1 invariant 0 <= i && j == len(l)-1-i && i <= j+1 && l == old(s.Seq) && len(comp) == 256 && arr(comp) == tabArr(s.Alpha)
+//@   loop 1 invariant forall b int :: 0 <= b && b < 256 ==> comp[b] == ctab(s.Alpha, b)
+//@   loop 1 invariant forall k int :: 0 <= k && k < i ==> l[k] == ctab(s.Alpha, old(s.Seq[len(l)-1-k])) && l[len(l)-1-k] == ctab(s.Alpha, old(s.Seq[k]))
+//@   loop 1 invariant forall k int :: i <= k && k <= j ==> l[k] == old(s.Seq[k])
+//@   loop 1 decreases j - i + 1
+
+//@ func (*Seq).Reverse
+//@   property C05
+//@   requires s != nil
+//@   ensures [shape]   len(s.Seq) == old(len(s.Seq)) && arr(s.Seq) == old(arr(s.Seq)) && off(s.Seq) == old(off(s.Seq))
+//@   ensures [letters] forall k int :: 0 <= k && k < len(s.Seq) ==> s.Seq[k] == old(s.Seq[len(s.Seq)-1-k])
+//@   ensures [strand]  s.Strand == 0 && s.Offset == old(s.Offset)
+//@   assigns s.Seq[*], s.Strand
+//@   loop 1 invariant 0 <= i && j == len(l)-1-i && i <= j+1 && l == old(s.Seq)
+//@   loop 1 invariant forall k int :: 0 <= k && k < i ==> l[k] == old(s.Seq[len(l)-1-k]) && l[len(l)-1-k] == old(s.Seq[k])
+//@   loop 1 invariant forall k int :: i <= k && k <= j ==> l[k] == old(s.Seq[k])
+//@   loop 1 decreases j - i + 1
+
+//@ func (*Seq).Clone
+//@   property C05
+//@   requires s != nil
+//@   ensures [fresh]   typeis(result, *Seq) && fresh(ref(result)) && (fresh(result.(*Seq).Seq) || len(s.Seq) == 0)
+//@   ensures [letters] len(result.(*Seq).Seq) == len(s.Seq) && forall k int :: 0 <= k && k < len(s.Seq) ==> result.(*Seq).Seq[k] == s.Seq[k]
+//@   ensures [annot]   result.(*Seq).Annotation == s.Annotation
+//@   assigns fresh
+
+//@ func (*Seq).Set
+//@   property C05
+//@   requires s != nil && 0 <= i - s.Offset && i - s.Offset < len(s.Seq)
+//@   ensures s.Seq[i - s.Offset] == l.L && result == nil
+//@   ensures forall k int :: 0 <= k && k < len(s.Seq) && k != i - s.Offset ==> s.Seq[k] == old(s.Seq[k])
+//@   assigns s.Seq[*]
+
+// RevComp twice restores letters, strand and coordinates (for letters the alphabet pairs).
+//@ func verifLemmaRevCompTwice
+//@   property C05
+//@   lemma
+//@   requires s != nil && complementing(s.Alpha, arr(s.Seq), s.Strand)
+//@   requires forall k int :: 0 <= k && k < len(s.Seq) ==> paired(s.Alpha, s.Seq[k])
+//@   ensures  len(s.Seq) == old(len(s.Seq)) && forall k int :: 0 <= k && k < len(s.Seq) ==> s.Seq[k] == old(s.Seq[k])
+//@   ensures  s.Strand == old(s.Strand) && s.Offset == old(s.Offset)
+func verifLemmaRevCompTwice(s *Seq) { s.RevComp(); s.RevComp() }
+
+// Reverse twice is the identity on letters.
+//@ func verifLemmaReverseTwice
+//@   property C05
+//@   lemma
+//@   requires s != nil
+//@   ensures  len(s.Seq) == old(len(s.Seq)) && forall k int :: 0 <= k && k < len(s.Seq) ==> s.Seq[k] == old(s.Seq[k])
+func verifLemmaReverseTwice(s *Seq) { s.Reverse(); s.Reverse() }
+
+// Clone is independent: a later mutation of the copy is not visible through the original, and vice versa.
+//@ func verifLemmaCloneIndependent
+//@   property C05
+//@   lemma
+//@   requires s != nil && 0 <= i - s.Offset && i - s.Offset < len(s.Seq)
+//@   ensures  forall k int :: 0 <= k && k < len(s.Seq) ==> s.Seq[k] == old(s.Seq[k])
+//@   ensures  s.Annotation == old(s.Annotation)
+func verifLemmaCloneIndependent(s *Seq, i int, l alphabet.QLetter) seq.Sequence {
+	c := s.Clone().(*Seq)
+	c.Set(i, l)
+	return c
+}
+
+//@ func verifLemmaCloneIndependent2
+//@   property C05
+//@   lemma
+//@   requires s != nil && 0 <= i - s.Offset && i - s.Offset < len(s.Seq)
+//@   ensures  forall k int :: 0 <= k && k < len(c.Seq) ==> c.Seq[k] == old(s.Seq[k])
+func verifLemmaCloneIndependent2(s *Seq, i int, l alphabet.QLetter) (c *Seq) {
+	c = s.Clone().(*Seq)
+	s.Set(i, l)
+	return c
+}
